@@ -81,6 +81,9 @@ func ParseReadHoldingRegistersRequestTCP(data []byte) (*ReadHoldingRegistersRequ
 	if err != nil {
 		return nil, err
 	}
+	if len(data) < 12 {
+		return nil, newTCPRequestTooShortError(header, data, FunctionReadHoldingRegisters)
+	}
 	unitID := data[6]
 	if data[7] != FunctionReadHoldingRegisters {
 		tmpErr := NewErrorParseTCP(ErrIllegalFunction, "received function code in packet is not 0x03")
